@@ -793,3 +793,27 @@ def job_validation_boundaries(ctx: Ctx, rule: str) -> None:
             continue
         ctx.check(ok, rule, init, f"Job: an explicit {attr} is kept, a missing one is generated", f"{attr} if given else uuid4().hex", f"Job.__init__ sets {attr} from {got}: the id the caller chose is replaced by a random one "
                   "(the bucket they prepared or will read is never the one used) or None becomes the id", instance=f"Job {attr} selection")
+
+
+def signals_registered(ctx: Ctx, rule: str) -> None:
+    """Stopping a worker gracefully starts with a signal: Worker registers its handler for EVERY configured signal (a loop over handle_signals that calls loop.add_signal_handler
+    with the handler that stops the runner), and does so before it starts consuming."""
+    f = ctx.func("repid.worker.Worker._register_signals")
+    handler = next((nf for nf in f.nested.values() if not nf.is_async), None)
+    loops = [lp for lp in C.own_nodes(f) if isinstance(lp, ast.For) and unparse(lp.iter).endswith("handle_signals")]
+    adds = [c for lp in loops for b in lp.body for c in ast.walk(b) if isinstance(c, ast.Call) and isinstance(c.func, ast.Attribute) and c.func.attr == "add_signal_handler"]
+    ok = handler is not None and len(adds) == 1 and len(adds[0].args) >= 2 and isinstance(loops[0].target, ast.Name) and unparse(adds[0].args[0]) == loops[0].target.id and unparse(adds[0].args[1]) == handler.name \
+        and not any(isinstance(x, (ast.Break, ast.Return)) for b in loops[0].body for x in ast.walk(b))
+    # the loop itself is not inside a condition that can be false for a non-empty configuration
+    guarded = [st for st in C.own_nodes(f) if isinstance(st, ast.If) and any(lp in list(ast.walk(st)) for lp in loops)]
+    ok = ok and all(unparse(st.test).endswith("handle_signals") for st in guarded)
+    ctx.check(ok, rule, f, "every configured signal gets the stop handler", "for sig in handle_signals: loop.add_signal_handler(sig, signal_handler)",
+              "Worker._register_signals does not register the stop handler for every configured signal: SIGTERM / SIGINT kill the process with messages in flight instead of starting the graceful shutdown "
+              "(nothing is handed back, prefetched messages stay claimed)", instance="signals registered")
+    run = ctx.func("repid.worker.Worker._run")
+    g = ctx.cfg(run)
+    reg = [n.id for n in g.calls() if (n.callee or "").endswith("_register_signals")]
+    cons = [n.id for n in g.calls() if (n.callee or "").endswith("run_one_queue") or ((n.callee or "").endswith("gather") and "run_one_queue" in unparse(n.ast))]
+    ok = bool(reg) and bool(cons) and all(flow.must_pass(g, g.entry.id, [c], reg, flow.NORMAL_KINDS) for c in cons)
+    ctx.check(ok, rule, run, "signal handlers are in place before consuming starts", "_register_signals dominates the consume gather", "Worker._run starts consuming before (or without) registering its signal handlers: "
+              "a stop signal that arrives early terminates the process with messages in flight", instance="signals before consuming")
